@@ -368,9 +368,13 @@ def _build_h2_script(tape: Tape, opts: Dict[str, Any], world: World, plan: ConnP
     auto = True
     updates: List[tuple] = []
     if opts["h2_windows"]:
-        window = tape.choice([65535, 65535, 0, 1, 100, 5000, 200000], "h2.window")
+        window = tape.choice([65535, 65535, 0, 1, 100, 5000, 200000, 16 << 20], "h2.window")
         max_frame = tape.choice([16384, 16384, 32768, 65536], "h2.maxframe")
         auto = not tape.chance(1, 3, "h2.manualwin")
+        if window == 16 << 20:
+            # ample stream windows: only the connection window runs out, and only connection-level
+            # credit is ever granted
+            auto = False
     peer = H2Peer(initial_window=window, max_frame=max_frame, auto_window=auto)
     plan.peer = peer
     plan.parser = peer
